@@ -458,4 +458,88 @@ theorem dirichlet_limit_connected (n nnz : Nat) (B : Nat → Nat → Rat) (a : A
   exact ⟨h, H, huniq, fun ε hε =>
     dirichlet_fit_converges n nnz B a α p h hprep hbip (by omega) hB hreach H ε hε⟩
 
+/-! ## the initial state, and the predicates evaluated by the `spec` lines -/
+
+/-- **init_temperatures**. The initial vector has the length of the seeds vector; a node with a temperature `≥ 0`
+starts at that temperature, every other node at `init`, or at the mean of the seed temperatures when `init` is
+absent; with no seed and no `init` there is no initial state (the code produces NaN). -/
+theorem init_temperatures_spec (seeds : List Rat) (init : Option Rat) :
+    (∀ temps border, initTemperatures seeds init = .ok (temps, border) →
+      temps.length = seeds.length ∧ border = borderOf seeds ∧
+      ∀ i, i < seeds.length →
+        (0 ≤ seeds.getD i 0 → temps.getD i 0 = seeds.getD i 0) ∧
+        (seeds.getD i 0 < 0 → temps.getD i 0 = (init.getD (seedSum seeds / seedCount seeds)))) ∧
+    (init = none → seedCount seeds = 0 → initTemperatures seeds init = .error .nanMean) := by
+  constructor
+  · intro temps border h
+    obtain ⟨hb, b, hbv, rfl⟩ := initTemperatures_ok h
+    refine ⟨by simp, hb, fun i hi => ⟨fun hs => ?_, fun hs => ?_⟩⟩
+    · have := (borderOf_getD_true hi).2 hs
+      simp [hi, this]
+    · have : ¬ (borderOf seeds).getD i false = true := fun hbt => by
+        have := (borderOf_getD_true hi).1 hbt; linarith
+      simp only [tab_getD, hi, if_true, this]
+      rcases hbv with rfl | ⟨rfl, _, rfl⟩ <;> rfl
+  · intro hi hc
+    subst hi
+    simp [initTemperatures, hc]
+
+/-- Non-vacuity: seeds `[2, -1, 4, -1]` start at `[2, 3, 4, 3]` (mean 3) or at `[2, 1, 4, 1]` with `init = 1`. -/
+example : initTemperatures [2, -1, 4, -1] none = .ok ([2, 3, 4, 3], [true, false, true, false]) := by decide +kernel
+example : initTemperatures [2, -1, 4, -1] (some 1) = .ok ([2, 1, 4, 1], [true, false, true, false]) := by decide +kernel
+
+/-- The predicate `c14.spec_maxp` evaluates on an implementation output (with slack 0) **is** the conclusion of
+`max_principle`; with a slack `tol ≥ 0` it is implied by it. -/
+theorem spec_maxPrinciple_iff (lo hi : Rat) (out : List Rat) :
+    (maxPrinciple lo hi 0 out = true ↔ ∀ x, x ∈ out → lo ≤ x ∧ x ≤ hi) ∧
+    (∀ tol, 0 ≤ tol → (∀ x, x ∈ out → lo ≤ x ∧ x ≤ hi) → maxPrinciple lo hi tol out = true) := by
+  constructor
+  · simp [maxPrinciple, within]
+  · intro tol htol h
+    simp only [maxPrinciple, within, List.all_eq_true, Bool.and_eq_true, decide_eq_true_eq]
+    intro x hx
+    have hpos : 0 ≤ tol * (1 + absR x) := by
+      apply mul_nonneg htol
+      unfold absR; split <;> linarith
+    constructor <;> linarith [(h x hx).1, (h x hx).2]
+
+/-- The predicate that checks "Dirichlet returns the seeds unchanged" on an implementation output says exactly
+that every listed seed `(i, t)` is a position of the output holding `t`. -/
+theorem spec_boundaryKept_iff (s : Seeds) (out : List Rat) :
+    boundaryKept s out = true ↔ ∀ e, e ∈ s → e.1 < out.length ∧ out.getD e.1 0 = e.2 := by
+  simp [boundaryKept]
+
+/-- The executable check `isHarmonicB`, with which the driver verifies the solver's proposal before using it, is
+the proposition `IsHarmonic` of the theorems (so by `harmonic_unique` the verified proposal *is* the harmonic
+solution). -/
+theorem spec_isHarmonicB_iff (n : Nat) (w : Nat → Nat → Rat) (s : Seeds) (h : List Rat) :
+    isHarmonicB n w s h = true ↔
+      h.length = n ∧ IsHarmonic n w (isSeed s) (fun i => (seedTemp? s i).getD 0) (fun i => h.getD i 0) := by
+  unfold isHarmonicB IsHarmonic
+  simp only [Bool.and_eq_true, beq_iff_eq, List.all_eq_true, List.mem_range]
+  constructor
+  · rintro ⟨hl, hall⟩
+    refine ⟨hl, fun i hi => ?_⟩
+    have := hall i hi
+    cases hs : seedTemp? s i with
+    | some t =>
+      rw [hs] at this
+      simp only [beq_iff_eq] at this
+      exact ⟨fun _ => by simpa using this, fun hf => by simp [isSeed, hs] at hf⟩
+    | none =>
+      rw [hs] at this
+      simp only [beq_iff_eq] at this
+      exact ⟨fun hf => by simp [isSeed, hs] at hf, fun _ => this⟩
+  · rintro ⟨hl, hall⟩
+    refine ⟨hl, fun i hi => ?_⟩
+    cases hs : seedTemp? s i with
+    | some t =>
+      have := (hall i hi).1 (by simp [isSeed, hs])
+      simp only [beq_iff_eq]
+      simpa [hs] using this
+    | none =>
+      have := (hall i hi).2 (by simp [isSeed, hs])
+      simp only [beq_iff_eq]
+      exact this
+
 end SkNet.C14
